@@ -2,22 +2,22 @@
 import itertools
 import json
 
-from .. import tdgen
+from .. import tdcli, tdgen
 from ..gen import both, lib_case, VOCAB_FIELD_NAMES
 from ..ref import eip712, td
 from ..run.core import V
 
 ID = "C20"
 LEVEL = "exploration"
-NEEDS = {"lib": ["dev", "release"]}
+NEEDS = {"lib": ["dev", "release"], "cli": ["dev", "release"]}
 RULE = ("typeddata.hash(json) events over domain types: all 326 duplicate-free orderings of subsets of the five standard fields "
         "(31 must-accept, 295 must-reject), all sequences of length <= 5 with repetition, foreign names inserted at every position, "
         "every field with type substitutions, missing EIP712Domain, domain values with missing / extra members; the domain *value* "
         "always conforms to the declared members so that only the domain-type rule decides; accepted documents must hash to the "
-        "reference digests. distinct = distinct documents; non-trivial = accept/reject decision compared")
+        "reference digests; a sample of the same documents through `hash typeddata` (with and without --message-hash / -m) and `sign typeddata`. distinct = distinct documents; non-trivial = accept/reject decision compared")
 REQUIRED = (["accept-%d-fields" % k for k in range(1, 6)] + ["reject-empty", "reject-reordered", "reject-repeated", "reject-foreign-name",
             "reject-wrong-type", "reject-no-domain-type", "reject-domain-value-missing-member", "reject-domain-value-extra-member",
-            "accepted-digests-equal"])
+            "accepted-digests-equal", "cli-reject-all-commands", "cli-accept-hashes-equal-and-signature-recovers"])
 F = eip712.DOMAIN_FIELDS
 FOREIGN = [("description", "string"), ("Name", "string"), ("NAME", "string"), ("name ", "string"), (" name", "string"), ("chainid", "uint256"),
            ("chainID", "uint256"), ("ChainId", "uint256"), ("chain_id", "uint256"), ("", "string"), ("verifyingcontract", "address"),
@@ -53,7 +53,7 @@ def judge(case, obs):
     return v.bucket("unspecified")
 
 
-JUDGES = {"doc": judge}
+JUDGES = {"doc": judge, "cli-doc": tdcli.make_td_judge(ID)}
 
 
 def shards(tier, seed):
@@ -64,7 +64,8 @@ def shards(tier, seed):
             {"name": "repetition-3", "part": 3, "parts": 4},
             {"name": "foreign", "reps": 12 if T else 1, "exhaustive": "a foreign member inserted at every position of every legal domain type"},
             {"name": "substitutions", "reps": 12 if T else 1, "exhaustive": "every standard field x 41 type substitutions (values of the substituted type and of the standard type), alone and inside every legal domain"},
-            {"name": "misc", "reps": 100 if T else 4}]
+            {"name": "misc", "reps": 100 if T else 4},
+            ] + [{"name": "cli-surface-%d" % i, "part": i} for i in range(8)]
 
 
 def _doc(rng, members, cls, shown=None, domain_override=None, drop_domain_type=False, extra_types=None, standard_values=False):
@@ -117,6 +118,13 @@ def _cls_of(members):
 
 def gen(shard, rng, tier):
     name = shard["name"]
+    if name.startswith("cli-surface"):
+        # a sample of the same documents through every command that reads a typed-data document (see tdcli)
+        def lib_cases():
+            for sub in [dict(s, reps=1) for s in shards("quick", 0) if s["name"] in ("orderings", "foreign", "substitutions", "misc")]:
+                yield from gen(sub, rng, tier)
+        yield from tdcli.from_lib_cases(lib_cases(), every=5, limit=3000 if tier == "thorough" else 360, part=shard["part"], parts=8)
+        return
     if name == "orderings":
         for _ in range(shard["reps"]):
             for k in range(0, 6):
